@@ -327,6 +327,82 @@ def raising_worker(kind: str, e: int) -> Part:
     return part
 
 
+def ind_cemi(i: int) -> bytes:
+    # M_PropInfo.ind of the device object, property 11, one element, data = i: reaches the connection's indication callback
+    return bytes.fromhex("f7000001" "0b" "1001") + bytes((i & 0xFF,))
+
+
+def mgmt_connection_worker(route_back: bool, e: int, same_channel: bool) -> Part:
+    """DeviceManagement as its user runs it: a real UDPDeviceManagementConnection through connect(), e frames, disconnect(),
+    connect() again on the SAME object (the server assigns another channel id unless `same_channel`), frames on the new connection."""
+    import logging
+
+    from xknx.io.device_management_connection import UDPDeviceManagementConnection
+    from xknx.knxip.knxip_enum import ConnectRequestType
+
+    logging.disable(logging.CRITICAL)
+    part = Part()
+    with World() as w:
+        loop = w.loop
+        gw = Gateway(loop)
+        pol = DefaultPolicy(gw, request_type=ConnectRequestType.DEVICE_MGMT_CONNECTION)
+        gw.handler = pol
+        up: list[bytes] = []
+        conn = UDPDeviceManagementConnection(GW_ADDR[0], GW_ADDR[1], local_ip="192.168.1.2", route_back=route_back, indication_callback=lambda c: up.append(c.to_knx()))
+        case = {"kind": "mgmt-connection", "route_back": route_back, "expected": e, "same_channel": same_channel}
+
+        def feed(channel: int, counter: int, payload: int) -> tuple[list[Any], list[bytes]]:
+            n_log, n_up = len(gw.log), len(up)
+            gw.send(DeviceConfigurationRequest(channel, counter, ind_cemi(payload)))
+            loop.settle()
+            return [b for _, b in gw.log[n_log:]], up[n_up:]
+
+        def judge2(tag: str, channel: int, counter: int, expected: int, channel_ok: bool, payload: int) -> None:
+            acks, got = feed(channel, counter, payload)
+            part.evaluations += 1
+            part.transitions += 1
+            exp_up = [ind_cemi(payload)] if (channel_ok and counter == expected) else []
+            exp_ack = 1 if (channel_ok and counter in (expected, (expected - 1) % 256)) else 0
+            good = [a for a in acks if isinstance(a, DeviceConfigurationAck)]
+            where = f"mgmt-connection(route_back={route_back}) {tag}: channel {channel} ({'own' if channel_ok else 'not the open one'}) expected={expected} received={counter}"
+            if got != exp_up:
+                part.viol(f"mgmt-connection:passed-up-wrong:{tag}", f"{where}: passed up {len(got)} frame(s), reference {len(exp_up)}", case)
+            if len(good) != exp_ack or len(acks) != len(good):
+                part.viol(f"mgmt-connection:ack-count:{tag}", f"{where}: client sent {[type(a).__name__ for a in acks]}, reference {exp_ack} ack(s)", case)
+            for a in good:
+                if a.sequence_counter != counter or a.communication_channel_id != channel:
+                    part.viol(f"mgmt-connection:ack-fields:{tag}", f"{where}: ack carries counter {a.sequence_counter} channel {a.communication_channel_id}", case)
+
+        t = w.spawn(conn.connect())
+        loop.settle()
+        assert t.done() and texc(t) is None, t
+        ch1 = conn.communication_channel
+        for i in range(e):
+            judge2("first-connection", ch1, i, i, True, i)
+        t = w.spawn(conn.disconnect())
+        loop.settle()
+        if same_channel:
+            pol.next_channel = ch1
+        t = w.spawn(conn.connect())
+        loop.settle()
+        if not (t.done() and texc(t) is None):
+            part.viol("mgmt-connection:second-connect-fails", repr(t), case)
+            return part
+        ch2 = conn.communication_channel
+        if not same_channel:
+            judge2("second-connection", ch1, 0, 0, False, 7)      # a straggler for the closed channel
+        judge2("second-connection", ch2, 0, 0, True, 8)
+        judge2("second-connection", ch2, 0, 1, True, 8)           # its repetition: acknowledged, not passed up again
+        judge2("second-connection", ch2, 1, 1, True, 9)
+        part.nontrivial += 1
+        for name, exc in loop.task_failures():
+            part.viol(f"task-exception:{type(exc).__name__}", f"{name}: {exc!r}", case)
+        t = w.spawn(conn.disconnect())
+        loop.settle()
+    part.traces += 1
+    return part
+
+
 def run(ctx: Ctx) -> None:
     all_e = list(range(256))
     fresh = set(all_e) if ctx.thorough else {0, 1, 2, 127, 128, 254, 255, ctx.seed_byte()}
@@ -334,7 +410,7 @@ def run(ctx: Ctx) -> None:
         "explicit-state search of the real UDPTunnel._tunnelling_request_received and DeviceManagement._device_configuration_request_received: "
         "every state (expected counter 0..255 x reconnect-timer pending) is reached by a real history from connect(); from each, every counter "
         "0..255 (and a foreign channel id) is fed and the acks sent / frames passed up / next state are compared with the three-way verdict of "
-        "Tunnelling 2.6.1; plus reconnect => counter 0; plus, from 5 states each, a consumer that raises for every frame passed up (acknowledgement, single delivery and counter must not depend on the consumer returning). non-trivial = transitions with counter in {e-1,e,e+1} or foreign channel"
+        "Tunnelling 2.6.1; plus reconnect => counter 0; plus, from 5 states each, a consumer that raises for every frame passed up (acknowledgement, single delivery and counter must not depend on the consumer returning); plus the real UDPDeviceManagementConnection (route_back off/on) through connect(), 0/1/3/255 frames, disconnect() and connect() again on the same object with another or the same channel id: the new connection starts at 0 on its own channel, a straggler for the closed channel is ignored. non-trivial = transitions with counter in {e-1,e,e+1} or foreign channel"
     )
     ctx.bounds = {"expected_values": 256, "fresh_history_per_transition_for_e": sorted(fresh), "counters_fed": 256}
     ctx.assumptions = ["the canonical state is (expected counter, timer pending): IncomingSequenceCounter.evaluate reads nothing else; drift of that key during a sweep is a harness error"]
@@ -342,6 +418,7 @@ def run(ctx: Ctx) -> None:
     ctx.pmap(worker, args)
     ctx.pmap(early_worker, [(rb, n, e) for rb in (False, True) for n in (1, 2, 3) for e in (0, 1, 3, 255)])
     ctx.pmap(raising_worker, [(k, e) for k in ("tunnel", "mgmt") for e in (0, 1, 2, 254, 255)])
+    ctx.pmap(mgmt_connection_worker, [(rb, e, same) for rb in (False, True) for e in (0, 1, 3, 255) for same in (False, True)])
     ctx.total.states = len(ctx.total.extra.pop("state_set", ()))
 
 
@@ -349,6 +426,9 @@ def replay(case: Any) -> list[tuple[str, str]]:
     import logging
 
     logging.disable(logging.CRITICAL)
+    if case.get("kind") == "mgmt-connection":
+        p = mgmt_connection_worker(case["route_back"], case["expected"], case["same_channel"])
+        return [(s, v[1]) for s, v in p.viols.items()]
     if case.get("kind") == "early":
         p = early_worker(case["route_back"], case["n_early"], case["e_before"])
         return [(s, v[1]) for s, v in p.viols.items()]
